@@ -51,6 +51,16 @@ CLAIMED = {
             'Trusts the input records (C10); thresholds equal to an attained value are not judged.',
             'deterministic simulation: seeded record streams routed to two simulated output files, channels and compositions; partition oracle',
             'DESIGN.md section 5 (C18)'),
+    'C07': ('exploration',
+            'Seeded twin worlds (the same SEDs authored independently as a per-file and as a cube package) under convolver schedules: calls on '
+            'the two packages interleaved, filter sub-sets with overwrite, permuted directory listings, memmap on/off, a crash at the k-th output '
+            'file (optionally leaving a truncated file) followed by a rerun. Every row of every convolved file is compared with SED X pushed '
+            'through sedfitter\'s own rebin in isolation (identity, order, FILTWAV, apertures), the two formats with each other, and the fits '
+            'of three Fitters (v1, v2 memmap off/on) by model name within a derived perturbation bound.',
+            'The integral itself is not judged here (C06 unclaimed); tolerances 1e-10 (f8) / 2e-5 (f4); singular regressions and models within '
+            '10 delta of a limit point are skipped; the package files are written by the harness, not by sedfitter\'s writers.',
+            'deterministic simulation: seeded twin-package worlds x convolver schedules with listing permutation, knobs, crash+rerun; identity + differential oracles',
+            'DESIGN.md section 5 (C07)'),
 }
 
 NOT_APPLICABLE = {
